@@ -75,7 +75,7 @@ theorem timing_head_digit {t l r : Str} {s : Nat} (hb : BLine t) (hsp : splitOn 
 theorem atoiLoose_third (l : Str) (h : ∀ c r, l = c :: r → c ≠ '-' ∧ c ≠ '+') :
     atoiLoose l = match parseDigits l with
       | some v => if v ≤ int64Max then (v : Int) else (int64Max : Int)
-      | none => 0 := by
+      | none => atoiGarbage false l := by
   unfold atoiLoose
   split
   · rename_i r; exact absurd rfl (h '-' r rfl).1
@@ -140,13 +140,17 @@ theorem cueId_facts {l : Str} {id : Int} (h : cueId l = some id) : opener l = fa
           rw [if_pos this] at h; cases h
         · have : ¬ (decide (c = '+') || decide (c = '-')) = true := by simpa using hs
           rw [if_neg this] at h
-          simp only [Option.some.injEq] at h
-          rw [atoiLoose_third _ (by
-            intro c' r' e
-            simp only [List.cons.injEq] at e
-            rw [← e.1]
-            exact ⟨fun x => hs (Or.inr x), fun x => hs (Or.inl x)⟩), hpd]
-          exact h
+          by_cases hg : Go.uint64Max < Go.leadVal (c :: r) 0
+          · rw [if_pos hg] at h; cases h
+          · rw [if_neg hg] at h
+            simp only [Option.some.injEq] at h
+            rw [atoiLoose_third _ (by
+              intro c' r' e
+              simp only [List.cons.injEq] at e
+              rw [← e.1]
+              exact ⟨fun x => hs (Or.inr x), fun x => hs (Or.inl x)⟩), hpd]
+            simp only [atoiGarbage, if_neg hg]
+            exact h
 
 /-! ### from the timing line to the end of the block -/
 
